@@ -89,6 +89,10 @@ impl Completer for ScriptHelper {
         let before = &line[..pos];
         let start = before.rfind(' ').map_or(0, |i| i + 1);
         let word = &before[start..];
+        if self.s.cands.first().map(String::as_str) == Some("*") {
+            // unfiltered script: every other entry is offered whatever the word is
+            return Ok((start, self.s.cands[1..].to_vec()));
+        }
         Ok((start, self.s.cands.iter().filter(|c| c.starts_with(word)).cloned().collect()))
     }
 }
